@@ -103,7 +103,8 @@ Fixpoint round_loop (fuel : nat) (st : cstate) (max_read mtu : Z) (acc : list (b
         (* a forced message break (the reader was dropped): it ends the message, unless nothing has been put into the
            message yet: then there is nothing to separate and reading goes on *)
         if max_read =? mtu then round_loop f st' max_read mtu acc else RRound (rev acc) true st'
-      | Some _ => RRound (rev acc) (negb (max_read =? mtu)) st'      (* no room for the pending key *)
+      | Some _ =>        (* no room for the pending key: the message ends here; if the message is still empty the key fits no message at all *)
+        if max_read =? mtu then RFail else RRound (rev acc) true st'
       end
     | (CErr, _) => RFail
     | (CKV k v, st') => round_loop f st' (max_read - kv_size k v) mtu ((k, v) :: acc)
